@@ -185,5 +185,6 @@ func main() {
 		emit(map[string]any{"e": "hang"})
 	}
 	tr.Close()
+	_ = os.RemoveAll(root) // os.Exit skips the deferred clean-up
 	os.Exit(0)
 }
